@@ -579,7 +579,10 @@ def p3(e: Engine, rep: Report):
     for cls, hdr in (('AddDateHeader', 'date'),
                      ('AddMessageIdHeader', 'message-id')):
         ctx = e.method_ctx('slimta.policy.headers.' + cls, 'apply')
-        g = e.build(ctx, raises=lambda b, n, r: set())
+        # (with the private helpers the test-and-add may have moved into)
+        g = e.build(ctx, raises=lambda b, n, r: set(),
+                    inline=e.inline_same_self(deny=['build_date']),
+                    max_depth=3)
         fx = e.facts(g)
         where = ctx.func.qname
         rep.functions.add(where)
@@ -594,6 +597,11 @@ def p3(e: Engine, rep: Report):
         for n in ws:
             rep.evaluations += 1
             key = n.ast.targets[0].slice
+            if isinstance(key, ast.Name):
+                # a helper's parameter: the name this call handed in
+                k2, _kf = common.origin(g, key, n.frame, follow_locals=False)
+                if isinstance(k2, ast.Constant):
+                    key = k2
             kv = key.value.lower() if isinstance(key, ast.Constant) and \
                 isinstance(key.value, str) else None
             kt = None
